@@ -13,6 +13,19 @@ correspondence: the vandalised run == `Sim.run` given σ (trajectory) and the re
 max_recompute, at most once per period, after the period's events, every recorded view == ground
 truth, vandalised run == clean run.
 
+Beyond one run() over plug-in / unplug / recompute events the scenarios have three more dimensions:
+ * `others`: events of a type `_process_event` has no branch for (the base acnsim.Event, user subclasses with
+   default or finite precedence), in the constructor queue or pushed with add_event afterwards — in the
+   period of a plug-in / unplug / RecomputeEvent, alone, after everything else.  They keep the loop going and
+   appear in event_history, and are no reason for an invocation (model: `Sim.runI`, AcnModel/Ignored.lean).
+ * the Interface is ALSO asked from outside schedule() (`pre_query`: before run(); always between two run()s
+   and after the last one of a staged case) and asked AGAIN at the end of every invocation, after the vandal
+   has been at work: every answer, at any time, is the ground truth of that moment.
+ * `splits`: run() in stages — the events from a threshold on are withheld, added with add_events to the
+   FINISHED simulation, and run() is called again (T = 0: constructed with an empty queue).  Well-formed when
+   every withheld event lies at or after the period where the previous run() stops (`staging_ok`): then the
+   staged history must be, period by period, the history of the same events handed over at once.
+
 `Interface.get_constraints()` returns the network's live arrays BY DESIGN (DESIGN §8) — not attacked.
 `Interface.infrastructure_info()` used to raise on a constraint-free network (defect F3, property C06,
 repaired in /repo): it now hands out a 0 x N view, which is judged like any other view.
@@ -46,6 +59,9 @@ REQUIRED_THEOREMS = [
     "Acn.C05.views_faithful", "Acn.C05.sched_sees_handed_view", "Acn.C05.view_true", "Acn.C05.view_true_valid",
     "Acn.C05.isolation_model", "Acn.C05.isolation_run", "Acn.C05.infra_static", "Acn.C05.sim_invoked_core",
     "Acn.C05.run_invoked_iff_fuelFor", "Acn.C05.active_order", "Acn.C05.infra_true", "Acn.C05.infra_ids_named",
+    "Acn.C05.invoked_at_most_once_any_guard", "Acn.C05.runI_nil", "Acn.C05.ignored_run_is_trace",
+    "Acn.C05.invoked_at_most_once_ignored", "Acn.C05.runI_invoked_iff", "Acn.C05.runI_invoked_iff_fuelForI",
+    "Acn.C05.simI_invoked_core", "Acn.C05.views_faithful_ignored", "Acn.C05.isolation_run_ignored",
 ]
 BUDGET = {"quick": 400, "thorough": 4000, "search": 1200}
 TRUSTED = ["copy.deepcopy / numpy array copy semantics (the isolation half is validated by the vandalising "
@@ -57,17 +73,31 @@ ASSUMPTIONS = ["trigger theorems: none on the configuration (any sessions, times
                "non-overlapping per station, recompute timestamps >= 0)",
                "isolation is claimed for what the scheduler is HANDED: active_sessions(), infrastructure_info(), "
                "active_evs copies, the dicts/lists/arrays of the other getters — not for get_constraints() (live by design)",
-               "last_applied_pilot_signals is empty while iteration-1 <= 0 (follows the code; DESIGN §8)"]
+               "last_applied_pilot_signals is empty while iteration-1 <= 0 (follows the code; DESIGN §8)",
+               "events of a type the simulator has no handler for are IGNORED (follows the code: no invocation, no state change, "
+               "recorded in event_history, the run lasts up to their timestamp); the Lean model carries them as a list of timestamps "
+               "that only enters the loop condition (Sim.runI), not as a fourth event kind: their position inside event_history and "
+               "the matrix widths DURING a run (get_last_timestamp over the real queue) are not modelled — the final shapes are",
+               "staged runs are compared with the model of the same events handed over at once (well-formed staging only); a run with "
+               "ignored-type events or stages that aborts is judged by the oracle alone"]
 RULE = ("simcase scenario (1-6 stations, 0-25 sessions, back-to-back reuse, simultaneous events) x max_recompute in "
         "{None,1,2,3,7,(0)} x 0-4 extra RecomputeEvents (also on event periods and after the last departure) x 0-3 extra "
         "constraints (subsets of stations, signed / fractional coefficients, default / duplicate names); scripted "
         "multi-period schedulers (model + oracle) or real algorithms (oracle only); 12% malformed (overlap, dep<=arr, "
         "negative timestamps = late events, bad schedules, scheduler crash); every case runs clean AND vandalised; "
+        "x ignored-type events in ~1/3 of the cases (1-4 of base acnsim.Event / user subclass / user subclass with finite precedence "
+        "-1, 5, 15, 25; 55% in the period of a plug-in / unplug / RecomputeEvent, 15% after the last known event = run-extending, rest "
+        "anywhere; 70% in the constructor queue, 30% pushed with add_event) x Interface asked before run() in ~1/4 x staged runs in ~1/4 "
+        "(threshold admitted by the layout with the later part moved to start exactly where the first run() stops in half of them, or "
+        "a second wave of 1-3 sessions appended 0-3 periods after the end, or T = 0 = constructed with an empty queue; 1 in 25 with a "
+        "threshold INSIDE the history = late additions, malformed); the Interface is asked again at the end of every invocation and "
+        "between / after the run()s of a staged case; "
         "exact-boundary stream (8% + 12 corpus cases): sessions whose remaining demand is float-EXACTLY 1e-3 kWh, one ulp "
         "above and one ulp below (from the plug-in on, or after 1-3 charging periods on a (V, period, pilot) grid point whose "
         "arithmetic the generator verifies to be exact), then held there while connected; "
         "thorough adds EVERY valid layout with <=3 sessions on <=2 stations within horizon 5 x max_recompute in "
-        "{None,1,2,3} x a cycling recompute-event set (5728 cases; clean twin for every 8th); "
+        "{None,1,2,3} x a cycling recompute-event set (5728 cases; clean twin for every 8th; every 3rd with a cycling set of "
+        "ignored-type events, every 5th with the Interface asked before run()); "
         "non-trivial = >=3 invocations, at least one triggered by max_recompute alone or at least one period without "
         "invocation, and >=1 view with an active session; distinct by hash of the case")
 
@@ -570,12 +600,14 @@ def run_impl(case):
 
 def model_mode(case, obs=None):
     """How the Lean model speaks about a case:
-      "sim"   the full simulator model on the case itself (no ignored events, one run());
-      "union" the same model on the history WITHOUT the ignored-type events, all events handed over at once:
-              exact (every compared observable) when the staging is well-formed, no ignored event lies after the
-              last event the simulator reacts to, and nothing raised (an abort freezes widths / the pending list
-              in a state that depends on what was queued);
-      None    oracle only (real algorithms; run-extending ignored events; late staging; aborted staged runs)."""
+      "sim"     `Sim.run` on the case itself (no ignored-type events, one run());
+      "ignored" `Sim.runI` (AcnModel/Ignored.lean): the same period body, the loop also kept going by the
+                ignored-type events still queued; the model's event_history holds the known entries only;
+      "union"   (staged runs, well-formed staging) the model is handed all events at once — with "ignored"
+                when there are ignored-type events;
+      None      oracle only: real algorithms; late staging; a run with ignored-type events / stages that
+                ABORTED (an abort freezes the matrix widths and the pending list in a state that depends on
+                `get_last_timestamp()` over the real queue, which the model does not carry)."""
     if not S.is_modelled(case):
         return None
     if not _others(case) and not _splits(case):
@@ -584,16 +616,15 @@ def model_mode(case, obs=None):
         return None
     if not staging_ok(case):
         return None
-    known = _known_ts(case)
-    if any(int(o["t"]) > max(known + [-10 ** 9]) for o in _others(case)) or (not known and _others(case)):
-        return None
-    return "union"
+    return "union" if _splits(case) else "ignored"
 
 
 def model_request(case, obs=None):
     if model_mode(case, obs) is None:
         return None
     req = S.model_request(case)
+    if req is not None and _others(case):
+        req["ignored"] = [int(o["t"]) for o in _others(case)]
     if req is not None:
         req["net"] = {"phases": [f2b(float(I.num(st.get("phase", 0)))) for st in case["stations"]],
                       "constraints": [{"current": [[k, f2b(float(I.num(v)))] for k, v in c["current"]],
@@ -612,7 +643,7 @@ def _num(x):
 def compare(case, obs, model):
     o2 = {k: v for k, v in obs.items() if k not in ("views", "clean", "final_infra", "outside", "stops")}
     if _others(case):
-        # the model was given the history without the ignored-type events (model_mode "union")
+        # the model's event_history / pending list hold the entries of the known types only (Sim.runI)
         o2["event_history"] = [e for e in obs["event_history"] if e[1] in KNOWN_TYPES]
         o2["pending"] = [e for e in obs["pending"] if e[1] in KNOWN_TYPES]
     diffs = S.compare(case, o2, model)
@@ -1211,6 +1242,7 @@ def exhaustive():
     after the last departure, duplicated).  The invocation set is decided by the oracle for each."""
     slots = [(st, a, d) for st in ("S0", "S1") for a in range(0, 5) for d in range(a + 1, 6)]
     recsets = [[], [0], [2], [5], [6], [1, 3], [4, 4], [2, 7]]
+    othsets = [[0], [2], [5], [7], [1, 3], [4, 4], [3]]
     sched = {"type": "scripted", "default": [["S0", [16.0]], ["S1", [8.0, 8.0]]], "script": []}
     stations = [_basic(0), _basic(1, {"t": "finite", "rates": [8, 16, 24, 32]})]
     out = []
@@ -1225,9 +1257,16 @@ def exhaustive():
                 sess = [_s(f"x{i}", st, a, d, req=[50.0, 0.05, 0.3][(i + k) % 3]) for i, (st, a, d) in enumerate(ss)]
                 if k % 2:
                     sess.reverse()
-                out.append({"stations": stations, "constraint": {"limit": 64.0} if k % 3 else None, "sessions": sess,
-                            "recomputes": list(recsets[(k // 4) % len(recsets)]), "period": 5, "max_recompute": mr,
-                            "noise": [], "sched": sched, "exhaustive": k})
+                c = {"stations": stations, "constraint": {"limit": 64.0} if k % 3 else None, "sessions": sess,
+                     "recomputes": list(recsets[(k // 4) % len(recsets)]), "period": 5, "max_recompute": mr,
+                     "noise": [], "sched": sched, "exhaustive": k}
+                if k % 3 == 0:        # every third layout also carries ignored-type events (cycling set, all three flavours)
+                    c["others"] = [{"t": t, "kind": ["base", "sub", "prec"][(k // 3 + i) % 3], "prec": [25, 5, -1][(k // 9) % 3],
+                                    "when": "ctor" if (k // 3 + i) % 2 else "added"}
+                                   for i, t in enumerate(othsets[(k // 12) % len(othsets)])]
+                if k % 5 == 0:
+                    c["pre_query"] = True
+                out.append(c)
     return out
 
 
